@@ -9,7 +9,7 @@ W=${BEN_WORK:-/tmp/benwork.$$}
 J=${BEN_JOBS:-6}
 G=${GALINT:-/verif/bin/galint}
 mkdir -p $W/verif $W/out
-cp /verif/known_functions.txt /verif/known_findings.json $W/verif/
+cp /verif/known_functions.txt /verif/known_types.txt /verif/known_findings.json $W/verif/
 ids="$@"; [ -z "$ids" ] && ids=$(ls $D0 | grep '^C')
 cleanup() { for k in $(seq 1 $J); do git -C /repo worktree remove --force $W/repo$k 2>/dev/null; done; git -C /repo worktree prune; rm -rf $W; }
 trap cleanup EXIT
